@@ -65,7 +65,7 @@ def main(argv):
     subprocess.run([BIN, "gen", "--family", "impl_runs", "--cfg-index", str(idx), "--hooks", "1", "--out-traces", tr, "--out-scn", tr + ".scn"],
                    check=True, stderr=subprocess.DEVNULL)
     cfg = PLAN.write_cfg(os.path.join(wd, "run.cfg"), PLAN.run_consts(12, c["api"], order=c["order"], limit=max(c["limit"], 0), strategy=c["strategy"],
-                         k=c["k"], include=c["include"], pre=c["pre_signal"], maxfail=9, control=c["control"]), spec="TSpec")
+                         k=c["k"], include=c["include"], pre=c["pre_signal"], maxfail=9, control=c["control"], ItemHook=True), spec="TSpec")
     lines = open(tr).read().splitlines()
     total = sum(1 for l in lines if '"ev":"reset"' in l)
     print(f"TraceRun, option set {json.dumps(c, sort_keys=True)}: {total} scenarios, {len(lines)} events")
